@@ -18,19 +18,19 @@ type c05Viol struct {
 }
 
 type c05Verdict struct {
-	Viol         []c05Viol
-	Inconcl      []string
-	Notes        []string
+	Viol          []c05Viol
+	Inconcl       []string
+	Notes         []string
 	RunningAtStop int            // max over the stops of the case: items begun before and ended after the stop began
-	KindsRunning map[string]int // class -> items seen still running at a stop
-	Stops        int
-	Signatures   []string // interleaving signature of each stop with >= 1 running item
-	SigText      []string
-	TimeoutsSeen int
-	P4Probes     int
-	LateItems    int // items that began after their module's stop began (P1b demanded a cancelled context)
-	Events       int
-	PlanRealised bool
+	KindsRunning  map[string]int // class -> items seen still running at a stop
+	Stops         int
+	Signatures    []string // interleaving signature of each stop with >= 1 running item
+	SigText       []string
+	TimeoutsSeen  int
+	P4Probes      int
+	LateItems     int // items that began after their module's stop began (P1b demanded a cancelled context)
+	Events        int
+	PlanRealised  bool
 }
 
 type oItem struct {
@@ -45,13 +45,13 @@ type oItem struct {
 }
 
 type oStop struct {
-	mod                       string
-	ctrlset, flagged, cancel  uint64
-	fnBegin, fnEnd, timeout   uint64
-	fnEndT, timeoutT          int64
-	live                      []string
-	handed                    int
-	modCtxDone, scanSeen      bool
+	mod                      string
+	ctrlset, flagged, cancel uint64
+	fnBegin, fnEnd, timeout  uint64
+	fnEndT, timeoutT         int64
+	live                     []string
+	handed                   int
+	modCtxDone, scanSeen     bool
 }
 
 func (s *oStop) ref() uint64 { // the moment the stop routine was invoked (nil routine: the point right before)
@@ -76,7 +76,7 @@ func fInt(f map[string]any, k string) int {
 	return -1
 }
 
-func fBool(f map[string]any, k string) bool { b, _ := f[k].(bool); return b }
+func fBool(f map[string]any, k string) bool  { b, _ := f[k].(bool); return b }
 func fStr(f map[string]any, k string) string { s, _ := f[k].(string); return s }
 
 // c05Oracle decides one recorded scenario. It only uses the order of sequence numbers;
@@ -133,6 +133,9 @@ func c05Oracle(sp *c05Spec, out *c05Out) *c05Verdict {
 			}
 		case "hook":
 			m := e.Who
+			if fBool(e.F, "resumed") {
+				continue
+			}
 			switch e.Op {
 			case "modules.stop.ctrlset":
 				stops[m] = append(stops[m], &oStop{mod: m, ctrlset: e.Seq})
@@ -461,7 +464,7 @@ func excerpt(evs []vlib.Event, seq uint64, n int) []vlib.Event {
 }
 
 var pointShort = map[string]string{"modules.stop.ctrlset": "S1", "modules.stop.flagged": "S2", "modules.stop.cancelled": "S3", "modules.stop.timeout": "TO",
-	"modules.stop.check": "chk", "modules.worker.dec": "wdec", "modules.task.defer": "tdef", "modules.task.prelock": "tpre", "modules.mt.conclude": "mtc"}
+	"modules.stop.check": "chk", "modules.worker.dec": "wdec", "modules.task.defer": "tdef", "modules.task.prelock": "tpre", "modules.mt.conclude": "mtc", "modules.ctrlfn.done": "cfd"}
 
 // interleaving returns the signature of one stop: the order in which the stopper's
 // steps, the stop routine and the finishing items' decrement / completion-check steps
@@ -490,6 +493,9 @@ func interleaving(evs []vlib.Event, s *oStop, passRet uint64, itemMod map[string
 				continue
 			}
 			tok = pointShort[e.Op] + "/" + fStr(e.F, "role")
+			if fBool(e.F, "resumed") {
+				tok += "+resumed"
+			}
 		case "begin", "end":
 			if e.Op == "stop" && e.Who == s.mod {
 				tok = "fn-" + e.Kind
